@@ -19,7 +19,7 @@ RULE = ("full in-memory stack; byte strings of EVERY length 0..3100 (covering th
         "sides. non-trivial = a payload that was published or uploaded; distinct = hash(length, configuration, fragmentation, format)")
 ASSUMPTIONS = ["payloads are published after the client's handshake (incl. its enableBLOB) has been processed",
                "known finding: a payload message longer than the junk threshold on a link whose threshold is enabled is dropped"]
-REQUIRED_EVENTS = ["sessions", "payloads_published", "payloads_uploaded", "payloads_verified", "no_payload_checks",
+REQUIRED_EVENTS = ["sessions", "payloads_published", "payloads_uploaded", "payloads_verified", "no_payload_checks", "republished_same_object",
                    "buffer_process_calls_guarded", "half_way_holds", "following_traffic_checks"]
 
 FORMATS = [".fits", "", ".bin", ".é", ".fits.z", ".ÿ<&>"]
@@ -131,7 +131,8 @@ async def session(ctx, case):
 
         if direction == "c2d":
             cvec = client.get_device("CAM").get_vector("IMG")
-            cvec.get_element("IMG_E0").value = values.BLOB(data, fmt)
+            upload = values.BLOB(data, fmt)
+            cvec.get_element("IMG_E0").value = upload
             mark = len(links[0].c_writer.data)
             try:
                 cvec.submit()
@@ -176,9 +177,21 @@ async def session(ctx, case):
                 ctx.violate("traffic-after-upload-blocked", "a write sent after the upload did not reach the driver", case)
                 return False
             ctx.count("payloads_verified")
+            if msg_len <= THRESHOLD - 8:
+                data2 = bytes((b + 7) % 256 for b in data)
+                upload.binary = data2
+                cvec.get_element("IMG_E0").value = upload
+                cvec.submit()
+                await sess.quiesce()
+                ctx.count("republished_same_object")
+                if fullstack.norm_blob(el.value) != fullstack.norm_blob(("blob", data2, fmt)):
+                    ctx.violate("reuploaded-blob-object-carries-stale-payload", f"driver holds {describe(fullstack.norm_blob(el.value))} after the same "
+                                                                               f"BLOB object was refilled and uploaded again", case)
+                    return False
         else:
             mark = {l: len(l.s_writer.data) for l in links}
-            el.value = values.BLOB(data, fmt)
+            frame = values.BLOB(data, fmt)
+            el.value = frame
             vec.state_ = "Busy"
             ctx.count("payloads_published")
             await asyncio.sleep(0)
@@ -229,6 +242,25 @@ async def session(ctx, case):
                     ctx.violate("blob-property-state-stale", f"client shows state {view['IMG']['state']!r}, device is Busy", case)
                     return False
                 ctx.count("payloads_verified")
+                # the driver refills the SAME BLOB object (one frame buffer per camera) and publishes it again
+                if not (threshold_link and big):
+                    data2 = bytes((b + 1) % 256 for b in data[::-1]) + (b"+" if n % 2 else b"")
+                    frame.binary = data2
+                    frame.format = fmt + "2"
+                    el.value = frame
+                    if await sess.quiesce() < 0:
+                        ctx.violate("stall:after-republication", "loop did not quiesce", case)
+                        return False
+                    p = problems()
+                    if p:
+                        ctx.violate(p[0] + ":republished-object", p[1], case)
+                        return False
+                    got3 = fullstack.norm_blob(stack.client_view(client).get("CAM", {}).get("IMG", {}).get("elements", {}).get("IMG_E0", (None, None))[1])
+                    ctx.count("republished_same_object")
+                    if got3 != fullstack.norm_blob(("blob", data2, fmt + "2")) and len(data2) + 400 < (THRESHOLD if threshold_link else 10 ** 9):
+                        ctx.violate("republished-blob-object-carries-stale-payload", f"client holds {describe(got3)} after the same BLOB object was "
+                                                                                   f"refilled with {describe(('blob', data2, fmt + '2'))} and published again", case)
+                        return False
             else:
                 ctx.count("no_payload_checks")
                 if got is not None or got2 is not None:
